@@ -1,6 +1,6 @@
 """C09 — tampered, truncated or forged secured chunks are rejected."""
 import json
-import vf, recvlib
+import vf, recvlib, C13
 from recvlib import hexN
 
 IMPORTS = """From Coq Require Import NArith ZArith List Bool.
@@ -65,11 +65,37 @@ def run(ctx):
                and c.get("policy") == want.get("policy") and c.get("kind") == want.get("kind")] or obs
         ctx.level = "other"
         ctx.coverage["explanation"] = "replay run (cases of the recorded class re-generated from the seed and re-run)"
+    chan = [c for c in obs if c["name"].startswith("chan")]
+    obs = [c for c in obs if not c["name"].startswith("chan")]
     toy = [c for c in obs if c["name"].startswith("toy")]
     real = [c for c in obs if c["name"] == "real"]
     fails = [(oracle(c), c) for c in obs]
     fails = [(w, c) for w, c in fails if w]
+    # channel level: forged frames through readChunk on secured channels
+    chan_fails = []
+    for c in chan:
+        for n_, f in enumerate(c["frames"]):
+            why = None
+            if f["k"] == "panic":
+                why = "readChunk panicked on a forged frame: " + f.get("err", "")
+            elif f["k"] == "chunk" and not f.get("own"):
+                why = "secured channel (%s, mode %d) handed on a chunk that was not produced with its keys: %s (frame %d)" % (c["kind"], c["mode"], f.get("what"), n_)
+            elif f["k"] != "chunk" and f.get("own"):
+                why = "secured channel rejected the peer's own chunk after forged frames (frame %d, error class %s)" % (n_, f.get("e"))
+            if why:
+                chan_fails.append((why, dict(c, cert="", frames=c["frames"][:n_ + 1])))
+                break
     corr_ok, mism, idx = True, [], []
+    chan_mism = []
+    if rp is None and chan:
+        okc2, idx2, clog2 = ctx.eval_cases(C13.imports(chan[0]["cert"]), C13.CTYPE, [C13.term(c) for c in chan], C13.AGREE, shard=40, name="Chan")
+        if not okc2:
+            corr_ok = False
+            detail["chan_cases"] = clog2[-1500:]
+        elif idx2:
+            corr_ok = False
+            chan_mism = [dict(chan[i], cert="") for i in idx2[:3]]
+            detail["chan_model_vs_impl_mismatches"] = [c["name"] for c in chan_mism]
     if rp is None:
         okc, idx, clog = ctx.eval_cases(IMPORTS, CTYPE, [term(c) for c in toy], AGREE, shard=500)
         if not okc:
@@ -86,16 +112,20 @@ def run(ctx):
     ctx.coverage.update({
         "evaluations": len(obs),
         "distinct_nontrivial": len({c["chunk"] for c in obs if not c["same"]}),
-        "rule": "toy algorithm (xor cipher with block check, folding MAC; signature lengths 20/32/300) plugged into a real channelInstance: symmetric MSG and asymmetric OPN chunks x None/Sign/SignAndEncrypt, each produced by the real signAndEncrypt and then mutated (bit flips, multi-byte, truncation to EVERY length for one chunk per configuration, appended bytes, wrong MAC key, wrong cipher key, unsecured, zero signature, garbage) -> model evaluated in Coq on the same bytes; plus every registered symmetric policy x Sign/SignAndEncrypt x client/server real channels over TCP with the same mutations (oracle only); distinct = distinct mutated chunk byte strings",
+        "rule": "channel level: secured client/server channels (Sign, SignAndEncrypt; opening instance with/without algorithm) fed through readChunk with sequences of the peer's own chunks interleaved with forged plaintext OPN chunks (policy None with and without certificate, real policy + certificate, unknown and empty policy URIs), plaintext MSG chunks and foreign channel ids, compared frame by frame with Model.RecvFrame.read_frame in Coq and checked by the oracle (nothing forged is handed on, own chunks still accepted afterwards); instance level: toy algorithm (xor cipher with block check, folding MAC; signature lengths 20/32/300) plugged into a real channelInstance: symmetric MSG and asymmetric OPN chunks x None/Sign/SignAndEncrypt, each produced by the real signAndEncrypt and then mutated (bit flips, multi-byte, truncation to EVERY length for one chunk per configuration, appended bytes, wrong MAC key, wrong cipher key, unsecured, zero signature, garbage) -> model evaluated in Coq on the same bytes; plus every registered symmetric policy x Sign/SignAndEncrypt x client/server real channels over TCP with the same mutations (oracle only); distinct = distinct mutated chunk byte strings",
         "samples": [toy[0], toy[len(toy) // 2], real[0] if real else None],
         "outcome_classes": kinds,
         "traces_validated_against_impl": len(toy),
         "real_policy_cases": len(real),
+        "channel_level_sequences": len(chan), "channel_level_frames": sum(len(c["frames"]) for c in chan),
+        "channel_level_forged_frames": sum(1 for c in chan for f in c["frames"] if not f.get("own")),
         "model_impl_mismatches": len(idx),
     })
     new, seen = 0, set()
-    for why, c in fails + [("model and implementation disagree on this chunk", c) for c in mism]:
-        key = key_of(c, why)
+    allf = [(key_of(c, why), why, c) for why, c in fails + [("model and implementation disagree on this chunk", c) for c in mism]]
+    allf += [("accepted-forged-on-channel" if "panicked" not in why else "panic-channel", why, c) for why, c in chan_fails]
+    allf += [("channel-model-mismatch", "model (Model.RecvFrame) and implementation disagree on this frame sequence", c) for c in chan_mism]
+    for key, why, c in allf:
         if key in seen:
             continue
         seen.add(key)
